@@ -110,3 +110,56 @@ func vhC16LateHandler() {
 	leaked := vcContains(c.wrote, "X-Late") || vcContains(c.wrote, "late-") || vcContains(c.wrote, "scribbled") || vcContains(c.wrote, "HIJACKED") || hijackRan
 	vAssert("nothing-written-later-reaches-the-connection", !leaked)
 }
+
+// vhC16TimeoutErrorWithResponse: the handler hands over a response of its own
+// through TimeoutErrorWithResponse and then goes on writing into that very
+// Response object (body, header, status) — at once or after a while: the
+// client receives the response as it was when it was handed over.
+func vhC16TimeoutErrorWithResponse() {
+	x := vBytes("x", 2)
+	for _, b := range x {
+		vAssume(b >= 'a' && b <= 'z')
+	}
+	later := [...]time.Duration{0, 20 * time.Millisecond}[vChoose("handlerWritesAgainAfter", 2)]
+	sameLength := vBool("sameLength")
+	s := &Server{NoDefaultDate: true, NoDefaultServerHeader: true}
+	s.ReduceMemoryUsage = vBool("reduceMemory")
+	s.Handler = func(ctx *RequestCtx) {
+		if string(ctx.Path()) != "/busy" {
+			ctx.SetBodyString("fast")
+			return
+		}
+		var r Response
+		r.SetStatusCode(StatusServiceUnavailable)
+		r.Header.Set("X-Handed-Over", string(x))
+		r.SetBodyString("busy-" + string(x))
+		ctx.TimeoutErrorWithResponse(&r)
+		scribble := func() {
+			if sameLength {
+				r.SetBodyString("LATE-" + string(x))
+			} else {
+				r.SetBodyString("a much longer late write " + string(x))
+			}
+			r.Header.Set("X-Handed-Over", "late")
+			r.SetStatusCode(200)
+		}
+		if later == 0 {
+			scribble()
+		} else {
+			go func() {
+				time.Sleep(later)
+				scribble()
+			}()
+		}
+	}
+	c := &vsSegConn{segs: [][]byte{[]byte("GET /busy HTTP/1.1\r\nHost: a\r\n\r\n"), []byte("GET /two HTTP/1.1\r\nHost: a\r\nConnection: close\r\n\r\n")}}
+	s.ServeConn(c)
+	time.Sleep(100 * time.Millisecond)
+	vNote(string(c.wrote))
+	rs, ok := vsParseResponses(c.wrote)
+	vAssert("two-responses", ok && len(rs) == 2)
+	if ok && len(rs) == 2 {
+		vAssert("client-gets-the-response-as-handed-over", rs[0].status == StatusServiceUnavailable && rs[0].body == "busy-"+string(x) && vcContains(c.wrote, "X-Handed-Over: "+string(x)))
+		vAssert("second-request-served-normally", rs[1].status == 200 && rs[1].body == "fast")
+	}
+}
